@@ -1,6 +1,6 @@
 (** Property C06 — rules consulted for a path are exactly those of the documented delegation walk.
     Only statements here; proofs are in WalkProofs.v. *)
-From GV Require Import Walk WalkProofs C06Check.
+From GV Require Import Walk WalkProofs WalkComplete C06Check.
 
 (** Termination: for EVERY policy — cyclic and diamond-shaped delegation graphs, duplicate names,
     files without an allow rule included — and every path, the walk finishes within the fuel the
@@ -27,10 +27,43 @@ Theorem C06_top_level_match_is_protected : forall pol path f vs,
 Proof. exact top_level_match_is_protected. Qed.
 Print Assumptions C06_top_level_match_is_protected.
 
+(** Completeness (reached ⊆ consulted) for every policy without terminating rules — cyclic and
+    diamond-shaped graphs, duplicate file names and files at any delegation depth included: every
+    matching non-trailing rule of every file the documented walk enters is consulted, with its own
+    name, threshold and principal ids; with C06_sound the consulted set then equals the reached
+    set.  Hence a path matched by a reachable rule is never reported unprotected.  A terminating
+    rule cuts the walk of its group; that case stays with the per-case comparison of C06Check.v. *)
+Theorem C06_complete_without_terminating_rules : forall pol path vs,
+  (forall n file r, find_file pol n = Some file -> In r (f_rules file) -> r_term r = false) ->
+  find_verifiers pol path = WOk vs ->
+  forall f file r, Entered pol path f -> find_file pol f = Some file -> In r (removelast (f_rules file)) ->
+    rule_matches r path = true ->
+    exists v, In v vs /\ vr_name v = r_name r /\ vr_thr v = r_thr r /\ map fst (vr_pr v) = r_pids r.
+Proof. intros pol path vs Hnt. exact (find_verifiers_complete_noterm pol path Hnt vs). Qed.
+Print Assumptions C06_complete_without_terminating_rules.
+
+(** non-vacuity: a two-level policy without terminating rules whose delegated file is entered *)
+Definition c06_deleg_policy : policy :=
+  [ (TargetsRole, {| f_defs := [(1%N, [1%N])];
+       f_rules := [ {| r_name := [x72;x31]; r_patterns := [[x2a]]; r_term := false; r_pids := [1%N]; r_thr := 1 |};
+                    {| r_name := [x61]; r_patterns := [[x2a]]; r_term := false; r_pids := []; r_thr := 1 |} ] |});
+    ([x72;x31], {| f_defs := [(2%N, [2%N])];
+       f_rules := [ {| r_name := [x72;x32]; r_patterns := [[x78]]; r_term := false; r_pids := [2%N]; r_thr := 1 |};
+                    {| r_name := [x61]; r_patterns := [[x2a]]; r_term := false; r_pids := []; r_thr := 1 |} ] |}) ].
+Example C06_complete_example :
+  Entered c06_deleg_policy [x78] [x72;x31] /\
+  exists vs, find_verifiers c06_deleg_policy [x78] = WOk vs /\ map vr_name vs = [[x72;x31]; [x72;x32]].
+Proof.
+  split.
+  - eapply (En_step c06_deleg_policy [x78] TargetsRole _ {| r_name := [x72;x31]; r_patterns := [[x2a]]; r_term := false; r_pids := [1%N]; r_thr := 1 |});
+      [constructor|reflexivity|left; reflexivity|reflexivity|discriminate].
+  - eexists. split; vm_compute; reflexivity.
+Qed.
+
 (** C06_exact_partial.  The full statement — the consulted set EQUALS the reached set under unique
     rule names, hence "matched by a reachable rule => never reported unprotected" — is stated as
     the executable [reached] / [same_names] comparison in C06Check.v and evaluated against the
-    implementation's answer on every generated case; the (⊇) direction is not yet a theorem.
+    implementation's answer on every generated case; the (⊇) direction is a theorem for policies without terminating rules (above) and evaluated per case otherwise.
     That each rule contributes the principal *definitions* of its own file is refuted for the
     faithful model (known finding K7): *)
 Definition k7_policy : policy :=
